@@ -37,6 +37,11 @@ POSITIONS = {
     "check_named": ("CREATE TABLE t (c0 int, c1 varchar(10), c2 int, CONSTRAINT ck CHECK (c1 <> {L}));", {}),
     "check_and": ("CREATE TABLE t (c0 int, c1 varchar(10) CHECK (c1 <> {L} AND c0 > 0), c2 int);", {}),
     "check_table": ("CREATE TABLE t (c0 int, c1 varchar(10), c2 int, CHECK (c1 <> {L}));", {}),
+    # literals inside ALTER statements, and literals followed later in the script by a comment line holding a lone apostrophe
+    "alter_check": ("CREATE TABLE t (c0 int, c1 varchar(10), c2 int);\nALTER TABLE t ADD CONSTRAINT ck CHECK (c1 <> {L});", {}),
+    "alter_default": ("CREATE TABLE t (c0 int, c1 varchar(10), c2 int);\nALTER TABLE t ADD CONSTRAINT d1 DEFAULT {L} FOR c1;", {}),
+    "default_apos": ("CREATE TABLE t (c0 int, c1 varchar(10) DEFAULT {L}, c2 int);\n-- the next table isn't used yet\nCREATE TABLE zz (q int);", {}),
+    "comment_apos": ("CREATE TABLE t (c0 int, c1 varchar(10) COMMENT {L}, c2 int);\n-- the next table isn't used yet\nCREATE TABLE zz (q int);", {}),
     "type_enum": ("CREATE TYPE ty AS ENUM ({L}, 'z');", {}),
     "col_enum": ("CREATE TABLE t (c0 int, c1 ENUM({L}, 'z'), c2 int);", {"output_mode": "mysql"}),
     "location": ("CREATE TABLE t (c0 int, c1 varchar(10), c2 int) LOCATION {L};", {"output_mode": "hql"}),
@@ -131,6 +136,8 @@ def features(case):
     if case["kind"] == "num":
         return []
     f = feats(case["lit"]) + ["pos:" + case["pos"]]
+    if case["pos"].endswith("_apos") and "\\'" in "'" + case["lit"] + "'":
+        f.append("apos-suffix:backslash-before-quote")
     if case["pos"] == "tblprop" and "=" in case["lit"]:
         f.append("tblprop:eq-in-value")
     return f
@@ -238,6 +245,8 @@ def evaluate(case):
                 syms = leaf_symptoms(e, o)
                 if syms is None:
                     sym = "literal-differs" if isinstance(e, str) and lit in e else "other-field-differs"
+                    if case["pos"].startswith("alter_") and p.startswith("/0/alter") and o == "<absent>":
+                        sym = "alter-statement-lost"  # the table is there, the ALTER statement that carries the literal left no trace
                     diffs.append(diff(ptr, sym, e, o))
                     break
                 for s in syms:
